@@ -4,7 +4,7 @@ from __future__ import annotations
 import random
 
 from translate import gen_src
-from vlib import core, families, family, programs
+from vlib import core, families, family, ops, programs
 
 LEVEL = "proof"
 
@@ -58,6 +58,42 @@ def function_cases(rnd, scale):
     return cs
 
 
+def shortcut_cases(rnd, n, prefix="PK"):
+    """Value-dependent shortcuts (where with a constant condition or equal branches, logical_and/or with a constant
+    operand) against placeholders whose extents are only known at run time and differ: the exported graph must still
+    broadcast.  Shapes: equal rank, every axis (1, k), (k, 1) or (k, k)."""
+    out = []
+    for i in range(n):
+        d = rnd.choice(["int64", "float64", "int32", "nint64", "bool"])
+        r = rnd.randint(1, 2)
+        sa, sb = [], []
+        for _ in range(r):
+            k = rnd.choice([2, 3])
+            e = rnd.choice([(1, k), (k, 1), (k, k), (1, 1)])
+            sa.append(e[0])
+            sb.append(e[1])
+        a, b = ops.tensor(rnd, d, sa, "small"), ops.tensor(rnd, d, sb, "small")
+        cshape = rnd.choice(["()", "(1,)", "(1, 1)"][: r + 1])
+        const = f"ndx.asarray(np.full({cshape}, {rnd.choice(['True', 'False'])}))"
+        x, y = rnd.choice([("a", "b"), ("b", "a")])
+        form = rnd.random()
+        if d == "bool" or form < 0.25:
+            cond = "a" if d == "bool" else "(a > 1)"
+            f = rnd.choice(["logical_and", "logical_or"])
+            args = f"{cond}, {const}" if rnd.random() < 0.5 else f"{const}, {cond}"
+            impl = f"m_ = ndx.{f}({args}); out = ndx.where(m_, {x}, {y})"
+        elif form < 0.85:
+            impl = f"out = ndx.where({const}, {x}, {y})" + rnd.choice(["", " * 2", " + b"])
+        else:
+            impl = f"out = ndx.where(({x} > 1), a, a)"
+        sig = lambda sh, tag: [None if rnd.random() < 0.7 else f"D{j}{tag}" for j in range(len(sh))]
+        subs = [{"names": ["a", "b"], "sigs": {"a": sig(sa, "a"), "b": sig(sb, "b")}}, {"names": ["a", "b"]},
+                {"names": [rnd.choice(["a", "b"])]}]
+        out.append({"id": f"{prefix}-{i}", "inputs": {"a": a, "b": b}, "impl": impl, "oracle": None, "tol": [0, 0],
+                    "meta": {"func": "shortcut", "dtype": d, "dclass": family.dclass(d)}, "lazy_subsets": subs})
+    return out
+
+
 def run(ctx):
     rnd = random.Random(ctx.seed)
     ctx.trusted += ["coq/Machine/Machine.v as a description of _corearray.py/_propagation.py (tied by the T-src census of value-dependent sites and by the correspondence)",
@@ -70,7 +106,7 @@ def run(ctx):
     for f in ("ndonnx/_propagation.py", "ndonnx/_corearray.py", "ndonnx/_array.py", "ndonnx/_opset_extensions.py"):
         ctx.translator_inputs[f] = core.sha256_file(core.REPO / f)
     scale = 1 if ctx.tier == "quick" else 10
-    cases = program_cases(ctx, rnd, 300 * scale) + function_cases(rnd, scale)
+    cases = program_cases(ctx, rnd, 300 * scale) + function_cases(rnd, scale) + shortcut_cases(rnd, 120 * scale)
     # witness of the known finding (kept so that the KNOWN-FINDING line is backed by a replay)
     wit = {"id": "W-where-eq-lazy-cond", "inputs": {"c": {"dtype": "bool", "shape": [3], "data": [True, False, True]}},
            "impl": "out = ndx.where(c, ndx.asarray(np.array([1.5])), ndx.asarray(np.array([1.5])))", "oracle": None, "tol": [0, 0],
